@@ -41,6 +41,28 @@ pub fn new_market64(cfg: TestMarketConfig<u64, 9>) -> TestMarket<u64, 9> { TestM
 pub fn default_cfg128() -> TestMarketConfig<u128, 20> { Default::default() }
 pub fn new_market128(cfg: TestMarketConfig<u128, 20>) -> TestMarket<u128, 20> { TestMarket::<u128, 20>::with_config(cfg) }
 
+/// error kind of the `perp` engine (computational failures collapse to `fail`)
+pub fn perp_err(e: &Error) -> String {
+    use gmsol_model::position::{InsolventCloseStep as S, LiquidatableReason as R};
+    match e {
+        Error::InvalidArgument(m) if *m == "invalid prices" => "err prices".into(),
+        Error::InvalidArgument(_) => "err arg".into(),
+        Error::InvalidPosition(_) => "err invalidpos".into(),
+        Error::Liquidatable(r) => format!("err liquidatable {}", match r { R::MinCollateral => "mincollateral", R::NotPositive => "notpositive", R::MinCollateralForLeverage => "leverage" }),
+        Error::NotLiquidatable => "err notliquidatable".into(),
+        Error::InsufficientFundsToPayForCosts(s) => format!("err insufficient {}", step_tag(Some(*s))),
+        Error::InsufficientReserve(..) => "err reserve".into(),
+        Error::InsufficientReserveForOpenInterest(..) => "err oireserve".into(),
+        Error::MaxOpenInterestExceeded => "err maxoi".into(),
+        _ => "err fail".into(),
+    }
+}
+
+pub fn step_tag(s: Option<gmsol_model::position::InsolventCloseStep>) -> &'static str {
+    use gmsol_model::position::InsolventCloseStep as S;
+    match s { None => "_", Some(S::Pnl) => "pnl", Some(S::Fees) => "fees", Some(S::Funding) => "funding", Some(S::Impact) => "impact", Some(S::Diff) => "diff", Some(_) => "other" }
+}
+
 macro_rules! perp_world {
     ($modname:ident, $U:ty, $I:ty, $D:expr, $W:expr, $SCALE:expr, $defcfg:path, $newm:path) => {
         pub mod $modname {
@@ -177,9 +199,572 @@ macro_rules! perp_world {
                     self.ps.retain(|p| !(p.size_in_usd == 0 && p.size_in_tokens == 0 && p.collateral_token_amount == 0));
                 }
             }
+
+            // ------------------------------------------------------------------ `perp` engine
+            use gmsol_model::params::fee::PositionFees;
+            use std::collections::BTreeMap;
+
+            /// one `perp` session: market + positions by id
+            pub struct Session { pub m: M, pub ps: BTreeMap<u64, P> }
+
+            pub fn market_from_cfg(v: &[$U]) -> Option<M> {
+                if v.len() != 56 { return None; }
+                if v[25] > 1 || v[28] > 1 || v[29] > 1 || v[48] > 1 { return None; }
+                let config = Cfg {
+                    swap_impact_params: PriceImpactParams::builder().exponent(v[0]).positive_factor(v[1]).negative_factor(v[2]).build(),
+                    swap_fee_params: FeeParams::builder().positive_impact_fee_factor(v[3]).negative_impact_fee_factor(v[4]).fee_receiver_factor(v[5]).build(),
+                    position_impact_params: PriceImpactParams::builder().exponent(v[6]).positive_factor(v[7]).negative_factor(v[8]).build(),
+                    order_fee_params: FeeParams::builder().positive_impact_fee_factor(v[9]).negative_impact_fee_factor(v[10]).fee_receiver_factor(v[11]).build(),
+                    position_impact_distribution_params: PositionImpactDistributionParams::builder().distribute_factor(v[12]).min_position_impact_pool_amount(v[13]).build(),
+                    borrowing_fee_params: BorrowingFeeParams::builder().receiver_factor(v[14]).exponent_for_long(v[49]).factor_for_long(v[50]).exponent_for_short(v[51]).factor_for_short(v[52])
+                        .skip_borrowing_fee_for_smaller_side(v[48] == 1).build(),
+                    borrowing_fee_kink_model_params: BorrowingFeeKinkModelParamsForOneSide::builder().optimal_usage_factor(v[53]).base_borrowing_factor(v[54]).above_optimal_usage_borrowing_factor(v[55]).build(),
+                    funding_fee_params: FundingFeeParams::builder().exponent(v[40]).funding_factor(v[41]).increase_factor_per_second(v[42]).decrease_factor_per_second(v[43])
+                        .max_factor_per_second(v[44]).min_factor_per_second(v[45]).threshold_for_stable_funding(v[46]).threshold_for_decrease_funding(v[47]).build(),
+                    reserve_factor: v[15],
+                    open_interest_reserve_factor: v[16],
+                    max_pnl_factors: MaxPnlFactors { deposit: v[17], withdrawal: v[18], trader: v[19], adl: v[20] },
+                    min_pnl_factor_after_adl: v[21],
+                    max_pool_amount: v[22],
+                    max_pool_value_for_deposit: v[23],
+                    max_open_interest: v[24],
+                    ignore_open_interest_for_usage_factor: v[25] == 1,
+                    position_params: PositionParams::builder().min_position_size_usd(v[30]).min_collateral_value(v[31]).min_collateral_factor(v[32])
+                        .min_collateral_factor_for_liquidation(Some(v[33])).max_positive_position_impact_factor(v[34]).max_negative_position_impact_factor(v[35])
+                        .max_position_impact_factor_for_liquidations(v[36]).build(),
+                    min_collateral_factor_for_oi: v[37],
+                    liquidation_fee_params: LiquidationFeeParams::builder().factor(v[38]).receiver_factor(v[39]).build(),
+                };
+                let mut m = M::new(v[26], v[27], config);
+                if v[28] == 1 { m.vi_swaps = Some(TestPool::default()); }
+                if v[29] == 1 { m.vi_positions = Some(TestPool::default()); }
+                Some(m)
+            }
+
+            /// 56 config numbers for `perp new` drawn from parameter palettes (zero / tiny / typical /
+            /// large; unit-multiple exponents only)
+            pub fn random_cfg(r: &mut Rng) -> Vec<$U> {
+                let iu: $U = UNIT / 1_000_000_000; // 1e-9
+                let fee = *r.pick(&[0u64, 5, 70, 500, 1000]);
+                let recv = *r.pick(&[0u64, 37, 100]);
+                let (pf, nf) = *r.pick(&[(0u64, 0u64), (4, 8), (8, 8), (9, 8), (400, 800), (1, 1000)]);
+                let per_y = |x: u64| -> $U { frac(x, 100) / (365 * 24 * 3600) };
+                let adaptive = r.chance(1, 2);
+                let fmx = *r.pick(&[iu * 10, iu * 300, UNIT / 10_000_000]);
+                let (opt, base, above) = match r.below(4) { 0 => (0 as $U, 0 as $U, 0 as $U), 1 => (frac(75, 100), per_y(60), per_y(150)), 2 => (frac(10, 100), per_y(500), per_y(100)), _ => (frac(1, 100), per_y(30), per_y(30000)) };
+                let mcf = *r.pick(&[frac(1, 100), frac(1, 100), frac(5, 100), frac(1, 1000)]);
+                vec![
+                    // swap impact, swap fee
+                    UNIT * *r.pick(&[1 as $U, 2]), iu * pf as $U, iu * nf as $U, frac(fee, 20_000), frac(fee, 10_000), frac(recv, 100),
+                    // position impact, order fee
+                    UNIT * 2, iu * (pf / 2) as $U, iu * nf as $U, frac(fee, 20_000), frac(fee, 10_000), frac(recv, 100),
+                    // distribution, borrowing receiver, reserve factors
+                    *r.pick(&[0 as $U, UNIT, UNIT / 1000]), *r.pick(&[0 as $U, 1_000_000_000]), frac(recv, 100), *r.pick(&[UNIT, UNIT / 2, UNIT * 2]), *r.pick(&[UNIT, UNIT / 2]),
+                    // pnl factors: deposit withdrawal trader adl minAfterAdl
+                    frac(60, 100), frac(30, 100), *r.pick(&[frac(50, 100), frac(10, 100), frac(1, 100), UNIT]), frac(50, 100), 0,
+                    // max pool amount / value / OI, ignore OI, divisor, funding adjustment, vi swaps, vi positions
+                    (1_000_000_000 as $U) * (1_000_000_000 as $U) * if SCALE > 1 { 1_000_000_000 } else { 1 }, <$U>::MAX / 4, *r.pick(&[<$U>::MAX / 4, (100_000_000_000_000 as $U) * SCALE]), r.below(2) as $U,
+                    if SCALE > 1 { SCALE } else { 1 }, if SCALE > 1 { 10_000_000_000 } else { 10_000 }, 0, r.below(2) as $U,
+                    // position params: min size, min collateral value, min collateral factor, liq factor, max pos/neg/liq impact factors
+                    *r.pick(&[UNIT, UNIT, 0, UNIT * 10]), *r.pick(&[UNIT, UNIT, 0, UNIT * 5]), mcf, *r.pick(&[mcf, mcf / 2, mcf * 2]),
+                    *r.pick(&[frac(5, 1000), frac(5, 100), 0]), *r.pick(&[frac(5, 1000), frac(5, 100), UNIT]), *r.pick(&[frac(25, 10_000), 0, frac(1, 100)]),
+                    // min collateral factor for OI multiplier, liquidation fee factor / receiver
+                    *r.pick(&[0 as $U, (5 * (UNIT / 1000)) / 83_000_000 / SCALE.max(1)]), *r.pick(&[0 as $U, frac(2, 1000), frac(1, 100)]), frac(recv, 100),
+                    // funding: exponent factor inc dec max min thrStable thrDecrease
+                    UNIT * *r.pick(&[1 as $U, 1, 2]), *r.pick(&[0 as $U, iu * 20, UNIT / 100_000, UNIT / 50]), if adaptive { *r.pick(&[iu, iu * 10, iu * 200]) } else { 0 },
+                    *r.pick(&[0 as $U, iu, iu * 50]), fmx, *r.pick(&[0 as $U, fmx / 30, fmx / 3]), *r.pick(&[0 as $U, UNIT / 20, UNIT / 2]), *r.pick(&[0 as $U, UNIT / 100, UNIT / 4]),
+                    // borrowing: skip expL facL expS facS optimal base above
+                    r.below(3).min(1) as $U, UNIT * *r.pick(&[1 as $U, 1, 2]), *r.pick(&[0 as $U, iu * 28, UNIT / 100_000_000 * 30, UNIT / 1_000_000]),
+                    UNIT * *r.pick(&[1 as $U, 1, 2]), *r.pick(&[0 as $U, iu * 28, UNIT / 100_000_000 * 30, UNIT / 1_000_000]), opt, base, above,
+                ]
+            }
+
+            pub fn pools(m: &M) -> Vec<TestPool<$U>> {
+                vec![m.primary, m.swap_impact, m.fee, m.open_interest.0, m.open_interest.1, m.open_interest_in_tokens.0,
+                     m.open_interest_in_tokens.1, m.position_impact, m.borrowing_factor, m.funding_amount_per_size.0,
+                     m.funding_amount_per_size.1, m.claimable_funding_amount_per_size.0, m.claimable_funding_amount_per_size.1,
+                     m.collateral_sum.0, m.collateral_sum.1, m.total_borrowing]
+            }
+
+            pub fn market_digest(m: &M) -> String {
+                use gmsol_model::ClockKind;
+                let ps: Vec<String> = pools(m).iter().map(|p| format!("{},{}", p.long_amount, p.short_amount)).collect();
+                let ck = |k: ClockKind| m.clocks.get(&k).map(|c| c.to_string()).unwrap_or("_".into());
+                let op = |p: &Option<TestPool<$U>>| p.map(|p| format!("{},{}", p.long_amount, p.short_amount)).unwrap_or("_".into());
+                format!("{} s={} ff={} now={} ck={},{},{} vi={} vp={}", ps.join(";"), m.total_supply, m.funding_factor_per_second, m.now,
+                    ck(ClockKind::PriceImpactDistribution), ck(ClockKind::Borrowing), ck(ClockKind::Funding), op(&m.vi_swaps), op(&m.vi_positions))
+            }
+
+            pub fn fees_str(f: &PositionFees<$U>) -> String {
+                let l = match f.liquidation_fees() { Some(l) => format!("{},{},{}", l.fee_value(), l.fee_amount(), l.fee_amount_for_receiver()), None => "_".into() };
+                format!("{} {} {} {} {} {} {} {} {} {}", f.paid_order_and_borrowing_fee_value(), f.order_fees().fee_amounts().fee_amount_for_pool(), f.order_fees().fee_amounts().fee_amount_for_receiver(),
+                    f.order_fees().fee_value(), f.borrowing_fees().fee_amount(), f.borrowing_fees().fee_amount_for_receiver(), f.funding_fees().amount(),
+                    f.funding_fees().claimable_long_token_amount(), f.funding_fees().claimable_short_token_amount(), l)
+            }
+
+            impl Session {
+                pub fn digest(&self) -> String {
+                    let ps: Vec<String> = self.ps.iter().map(|(id, p)| format!("{id}:{}{},{},{},{},{},{},{},{}", p.is_long as u8, p.is_collateral_token_long as u8,
+                        p.collateral_token_amount, p.size_in_usd, p.size_in_tokens, p.borrowing_factor, p.funding_fee_amount_per_size,
+                        p.claimable_funding_fee_amount_per_size.0, p.claimable_funding_fee_amount_per_size.1)).collect();
+                    format!("{} | {}", market_digest(&self.m), ps.join(";"))
+                }
+
+                /// run `f` on a copy; commit only on success (the on-chain revertible semantics)
+                fn atomic<R>(&mut self, f: impl FnOnce(&mut M, &mut BTreeMap<u64, P>) -> gmsol_model::Result<R>) -> gmsol_model::Result<R> {
+                    let (mut m, mut ps) = (self.m.clone(), self.ps.clone());
+                    let r = f(&mut m, &mut ps);
+                    if r.is_ok() { self.m = m; self.ps = ps; }
+                    r
+                }
+
+                /// `None` = bad-op; otherwise the response without the digest
+                pub fn op(&mut self, op: &str, a: &[&str]) -> Option<String> {
+                    let n = |i: usize| -> Option<$U> { a.get(i)?.parse::<$U>().ok() };
+                    let b = |i: usize| -> Option<bool> { match *a.get(i)? { "1" => Some(true), "0" => Some(false), _ => None } };
+                    let prices_at = |i: usize| -> Option<Prices<$U>> {
+                        if a.len() != i + 6 { return None; }
+                        Some(Prices { index_token_price: Price { min: n(i)?, max: n(i + 1)? }, long_token_price: Price { min: n(i + 2)?, max: n(i + 3)? }, short_token_price: Price { min: n(i + 4)?, max: n(i + 5)? } })
+                    };
+                    match op {
+                        "tick" => { if a.len() != 1 { return None; } let secs: u64 = a[0].parse().ok()?; self.m.now = self.m.now.checked_add(secs)?; Some("ok".into()) }
+                        "setpool" => {
+                            if a.len() != 3 { return None; }
+                            let k: usize = a[0].parse().ok()?;
+                            let p = TestPool { long_amount: n(1)?, short_amount: n(2)? };
+                            let m = &mut self.m;
+                            match k { 0 => m.primary = p, 1 => m.swap_impact = p, 2 => m.fee = p, 3 => m.open_interest.0 = p, 4 => m.open_interest.1 = p,
+                                5 => m.open_interest_in_tokens.0 = p, 6 => m.open_interest_in_tokens.1 = p, 7 => m.position_impact = p, 8 => m.borrowing_factor = p,
+                                9 => m.funding_amount_per_size.0 = p, 10 => m.funding_amount_per_size.1 = p, 11 => m.claimable_funding_amount_per_size.0 = p,
+                                12 => m.claimable_funding_amount_per_size.1 = p, 13 => m.collateral_sum.0 = p, 14 => m.collateral_sum.1 = p, 15 => m.total_borrowing = p, _ => return None }
+                            Some("ok".into())
+                        }
+                        "dist" => {
+                            if !a.is_empty() { return None; }
+                            Some(match self.atomic(|m, _| m.distribute_position_impact()?.execute()) { Ok(r) => format!("ok {} {}", r.distribution_amount(), r.next_position_impact_pool_amount()), Err(e) => crate::perp::perp_err(&e) })
+                        }
+                        "ubor" => {
+                            let pr = prices_at(0)?;
+                            Some(match self.atomic(|m, _| m.update_borrowing(&pr)?.execute()) { Ok(_) => format!("ok {} {}", self.m.borrowing_factor.long_amount, self.m.borrowing_factor.short_amount), Err(e) => crate::perp::perp_err(&e) })
+                        }
+                        "ufund" => {
+                            let pr = prices_at(0)?;
+                            Some(match self.atomic(|m, _| m.update_funding(&pr)?.execute()) { Ok(_) => format!("ok {}", self.m.funding_factor_per_second), Err(e) => crate::perp::perp_err(&e) })
+                        }
+                        "open" => {
+                            if a.len() != 3 { return None; }
+                            let pid: u64 = a[0].parse().ok()?;
+                            if self.ps.contains_key(&pid) { return None; }
+                            let (il, cl) = (b(1)?, b(2)?);
+                            self.ps.insert(pid, if il { P::long(cl) } else { P::short(cl) });
+                            Some("ok".into())
+                        }
+                        "inc" => {
+                            let pid: u64 = a.first()?.parse().ok()?;
+                            let (coll, size) = (n(1)?, n(2)?);
+                            let pr = prices_at(3)?;
+                            if !self.ps.contains_key(&pid) { return None; }
+                            Some(match self.atomic(|m, ps| ps.get_mut(&pid).unwrap().ops(m).increase(pr, coll, size, None)?.execute()) {
+                                Ok(r) => format!("ok {} {} {} {} {}", r.execution().price_impact_value(), r.execution().price_impact_amount(), r.execution().size_delta_in_tokens(), r.collateral_delta_amount(), fees_str(r.fees())),
+                                Err(e) => crate::perp::perp_err(&e),
+                            })
+                        }
+                        "dec" => {
+                            let pid: u64 = a.first()?.parse().ok()?;
+                            let (size, wd) = (n(1)?, n(2)?);
+                            let flags = DecreasePositionFlags { is_insolvent_close_allowed: b(3)?, is_liquidation_order: b(4)?, is_cap_size_delta_usd_allowed: b(5)? };
+                            let pr = prices_at(6)?;
+                            if !self.ps.contains_key(&pid) { return None; }
+                            Some(match self.atomic(|m, ps| ps.get_mut(&pid).unwrap().ops(m).decrease(pr, size, None, wd, flags)?.execute()) {
+                                Ok(r) => format!("ok {} {} {} {} {} {} {} {} {} {} {} {} {} {} {} {}", r.size_delta_usd(), r.size_delta_in_tokens(), r.price_impact_value(), r.price_impact_diff(),
+                                    r.pnl().pnl(), r.pnl().uncapped_pnl(), r.withdrawable_collateral_amount(), r.should_remove() as u8, r.output_amount(), r.secondary_output_amount(),
+                                    r.claimable_collateral_for_holding().output_token_amount(), r.claimable_collateral_for_holding().secondary_output_token_amount(),
+                                    r.claimable_collateral_for_user().output_token_amount(), r.claimable_collateral_for_user().secondary_output_token_amount(),
+                                    crate::perp::step_tag(r.insolvent_close_step()), fees_str(r.fees())),
+                                Err(e) => crate::perp::perp_err(&e),
+                            })
+                        }
+                        "chk" => {
+                            let pid: u64 = a.first()?.parse().ok()?;
+                            let (mc, fl) = (b(1)?, b(2)?);
+                            let pr = prices_at(3)?;
+                            let mut p = self.ps.get(&pid)?.clone();
+                            let mut m = self.m.clone();
+                            use gmsol_model::position::LiquidatableReason as R;
+                            Some(match p.ops(&mut m).check_liquidatable(&pr, mc, fl) {
+                                Ok(None) => "ok none".into(),
+                                Ok(Some(r)) => format!("ok {}", match r { R::MinCollateral => "mincollateral", R::NotPositive => "notpositive", R::MinCollateralForLeverage => "leverage" }),
+                                Err(e) => crate::perp::perp_err(&e),
+                            })
+                        }
+                        _ => None,
+                    }
+                }
+            }
+
+
+
+            // ------------------------------------------------------------------ oracles (exact big-integer arithmetic)
+            use num_bigint::{BigInt, BigUint};
+
+            fn bu(x: $U) -> BigInt { BigInt::from(BigUint::from(x)) }
+
+            /// C07: per side and collateral token, OI (USD, tokens) and collateral sums equal the sums over positions
+            pub fn check_c07(s: &Session) -> Option<String> {
+                for il in [true, false] { for cl in [true, false] {
+                    let (mut a, mut b, mut c) = (BigInt::from(0), BigInt::from(0), BigInt::from(0));
+                    for p in s.ps.values().filter(|p| p.is_long == il && p.is_collateral_token_long == cl) { a += bu(p.size_in_usd); b += bu(p.size_in_tokens); c += bu(p.collateral_token_amount); }
+                    let side = |x: &(TestPool<$U>, TestPool<$U>)| { let q = if il { x.0 } else { x.1 }; if cl { q.long_amount } else { q.short_amount } };
+                    if bu(side(&s.m.open_interest)) != a { return Some(format!("open interest (USD) of side long={il} collateral_long={cl} is {} but the positions sum to {a}", side(&s.m.open_interest))); }
+                    if bu(side(&s.m.open_interest_in_tokens)) != b { return Some(format!("open interest in tokens of side long={il} collateral_long={cl} is {} but the positions sum to {b}", side(&s.m.open_interest_in_tokens))); }
+                    if bu(side(&s.m.collateral_sum)) != c { return Some(format!("collateral sum of side long={il} collateral_long={cl} is {} but the positions sum to {c}", side(&s.m.collateral_sum))); }
+                } }
+                None
+            }
+
+            /// C08 ledger of accounted holdings per pool token: `[long token, short token]`
+            pub fn ledger(m: &M) -> [BigInt; 2] {
+                let f = |il: bool| { let g = |p: &TestPool<$U>| bu(if il { p.long_amount } else { p.short_amount }); g(&m.primary) + g(&m.swap_impact) + g(&m.fee) + g(&m.collateral_sum.0) + g(&m.collateral_sum.1) };
+                [f(true), f(false)]
+            }
+
+            /// Σ pending funding fee payable / claimable per token over all positions: `(payable, claimable)`
+            pub fn pending_funding(s: &Session) -> Option<([BigInt; 2], [BigInt; 2])> {
+                let mut pay = [BigInt::from(0), BigInt::from(0)]; let mut cl = [BigInt::from(0), BigInt::from(0)];
+                let mut m = s.m.clone();
+                for p in s.ps.values() {
+                    let mut q = p.clone();
+                    let f = q.ops(&mut m).pending_funding_fees().ok()?;
+                    pay[if p.is_collateral_token_long { 0 } else { 1 }] += bu(*f.amount());
+                    cl[0] += bu(*f.claimable_long_token_amount()); cl[1] += bu(*f.claimable_short_token_amount());
+                }
+                Some((pay, cl))
+            }
+
+            // ------------------------------------------------------------------ history generator
+            /// produces the next request of a random history relative to the current session state
+            pub struct HistGen { pub sid: String, pub left: u32, pub px: u64, pub next_pid: u64, pub stage: u32, pub pending: Vec<String>, pub roundtrip: bool }
+
+            impl HistGen {
+                pub fn new(r: &mut Rng, sid: String, roundtrip: bool) -> Self {
+                    HistGen { sid, left: 10 + r.below(40) as u32, px: 50 + r.below(200), next_pid: 0, stage: 0, pending: vec![], roundtrip }
+                }
+
+                pub fn price_str(&self, r: &mut Rng) -> String {
+                    let spread = if self.roundtrip { 0 } else { r.below(3) };
+                    let (a, b) = (self.px as $U * SCALE, (self.px + spread) as $U * SCALE);
+                    format!("{a} {b} {a} {b} {} {}", SCALE, SCALE)
+                }
+
+                pub fn next(&mut self, r: &mut Rng, db: &std::collections::HashMap<String, Session>) -> Option<String> {
+                    if let Some(q) = self.pending.pop() { return Some(q); }
+                    let sid = self.sid.clone();
+                    match self.stage {
+                        0 => { self.stage = 1; let c: Vec<String> = random_cfg(r).iter().map(|x| x.to_string()).collect(); return Some(format!("perp new {sid} {W} {UNIT} {}", c.join(" "))); }
+                        1 => { self.stage = 2; return Some(format!("perp setpool {sid} 0 {} {}", 1_000_000_000 + r.below(1_000_000_000_000), r.below(100_000_000_000_000))); }
+                        2 => { self.stage = 3; return Some(format!("perp setpool {sid} 7 {} 0", *r.pick(&[0u64, 1_000_000, 50_000_000_000]))); }
+                        3 => { self.stage = 4; let p = self.price_str(r); self.pending = vec![format!("perp ufund {sid} {p}"), format!("perp ubor {sid} {p}")]; return Some(format!("perp dist {sid}")); }
+                        _ => {}
+                    }
+                    if self.left == 0 { return None; }
+                    self.left -= 1;
+                    let s = db.get(&sid)?;
+                    if !self.roundtrip && r.chance(1, 4) { self.px = (self.px as i64 + r.below(21) as i64 - 10).max(2) as u64; }
+                    let pr = self.price_str(r);
+                    let open: Vec<(u64, &P)> = s.ps.iter().filter(|(_, p)| p.size_in_usd != 0 || p.collateral_token_amount != 0).map(|(k, p)| (*k, p)).collect();
+                    let pick = r.below(10);
+                    if self.roundtrip {
+                        // open a fresh position and close it at once at unchanged prices (C10)
+                        let pid = self.next_pid; self.next_pid += 1;
+                        let (il, cl) = (r.chance(1, 2), r.chance(1, 2));
+                        let size = (*r.pick(&[1_000_000_000u64, 20_000_000_000, 500_000_000_000, 5_000_000_000_000]) + r.below(1_000_000_000)) as $U * SCALE;
+                        let cval = (size / SCALE) as u64 / (1 + r.below(30)) + r.below(2_000_000_000);
+                        let c = (if cl { cval / self.px.max(1) } else { cval }) as $U;
+                        self.pending = vec![format!("perp dec {sid} {pid} {size} 0 0 0 1 {pr}"), format!("perp inc {sid} {pid} {c} {size} {pr}")];
+                        if r.chance(1, 3) { let o = self.next_pid; self.next_pid += 1; let os = size / 2 * r.range(1, 6) as $U; let oc = (os / SCALE / 5) as $U;
+                            // someone else moves the open interest first
+                            self.pending.push(format!("perp inc {sid} {o} {} {os} {pr}", if cl { oc / self.px.max(1) as $U } else { oc }));
+                            self.pending.push(format!("perp open {sid} {o} {} {}", r.below(2), cl as u8)); }
+                        return Some(format!("perp open {sid} {pid} {} {}", il as u8, cl as u8));
+                    }
+                    match pick {
+                        0 | 1 | 2 => {
+                            // increase a new or existing position, then check its health
+                            let new = open.is_empty() || r.chance(1, 2);
+                            let (pid, cl) = if new { let pid = self.next_pid; self.next_pid += 1; (pid, r.chance(1, 2)) } else { let (k, p) = open[r.below(open.len() as u64) as usize]; (k, p.is_collateral_token_long) };
+                            let size = (*r.pick(&[0u64, 1_000_000_000, 20_000_000_000, 500_000_000_000, 5_000_000_000_000]) + r.below(1_000_000_000)) as $U * SCALE;
+                            let cval = (size / SCALE) as u64 / (1 + r.below(30)) + r.below(2_000_000_000);
+                            let c = (if cl { cval / self.px.max(1) } else { cval }) as $U;
+                            self.pending = vec![format!("perp chk {sid} {pid} 1 1 {pr}"), format!("perp chk {sid} {pid} 1 0 {pr}"), format!("perp inc {sid} {pid} {c} {size} {pr}")];
+                            if new { return Some(format!("perp open {sid} {pid} {} {}", r.below(2), cl as u8)); }
+                            self.pending.pop()
+                        }
+                        3 | 4 | 5 => {
+                            if open.is_empty() { return Some(format!("perp tick {sid} {}", r.below(100))); }
+                            let (pid, p) = open[r.below(open.len() as u64) as usize];
+                            let (size, coll) = (p.size_in_usd, p.collateral_token_amount);
+                            let delta = match r.below(8) { 0 => size, 1 => 0, 2 => size - (r.below(2) as $U).min(size), 3 => (r.below(1_000_000) as $U).min(size), 4 => size / 2, 5 => size.saturating_add(r.below(5) as $U),
+                                6 => { // crafted to round the remaining size in tokens to zero
+                                    let t = p.size_in_tokens.max(1); size - size / t / 2 }
+                                _ => size / 1000 * r.below(1000) as $U };
+                            let wd = match r.below(4) { 0 => 0, 1 => coll / 2, 2 => coll, _ => coll - coll / 10 };
+                            self.pending = vec![format!("perp chk {sid} {pid} 1 1 {pr}"), format!("perp chk {sid} {pid} 0 0 {pr}")];
+                            Some(format!("perp dec {sid} {pid} {delta} {wd} {} 0 {} {pr}", r.chance(1, 4) as u8, r.below(2)))
+                        }
+                        6 => {
+                            // liquidation attempt (the store guard passes size_delta >= size): check first, then liquidate
+                            if open.is_empty() { return Some(format!("perp tick {sid} 1")); }
+                            // move the price against a random position to make it unhealthy sometimes
+                            let (pid, p) = open[r.below(open.len() as u64) as usize];
+                            if r.chance(1, 2) { let k = r.range(5, 60); self.px = if p.is_long { (self.px * (100 - k.min(95)) / 100).max(1) } else { self.px * (100 + k) / 100 }; }
+                            let pr = self.price_str(r);
+                            self.pending = vec![format!("perp dec {sid} {pid} {} 0 1 1 0 {pr}", p.size_in_usd)];
+                            Some(format!("perp chk {sid} {pid} 1 1 {pr}"))
+                        }
+                        _ => {
+                            let secs = *r.pick(&[0u64, 1, 60, 3600, 86400, 30 * 86400]);
+                            self.pending = vec![format!("perp ufund {sid} {pr}"), format!("perp ubor {sid} {pr}"), format!("perp dist {sid}")];
+                            Some(format!("perp tick {sid} {secs}"))
+                        }
+                    }
+                }
+            }
+
+            /// request → response for sessions of this width (`t` = tokens after the engine prefix)
+            pub fn exec(db: &mut std::collections::HashMap<String, Session>, t: &[&str]) -> Option<String> {
+                if t.len() < 2 { return None; }
+                if t[0] == "new" {
+                    let mut v: Vec<$U> = Vec::new();
+                    for x in &t[4..] { v.push(x.parse::<$U>().ok()?); }
+                    if t[3].parse::<$U>().ok()? != UNIT { return None; }
+                    let m = market_from_cfg(&v)?;
+                    let s = Session { m, ps: BTreeMap::new() };
+                    let d = s.digest();
+                    db.insert(t[1].to_string(), s);
+                    return Some(format!("ok | {d}"));
+                }
+                let s = db.get_mut(t[1])?;
+                let r = s.op(t[0], &t[2..])?;
+                Some(format!("{r} | {}", s.digest()))
+            }
         }
     };
 }
 
 perp_world!(w64, u64, i64, 9, 64, 1, crate::perp::default_cfg64, crate::perp::new_market64);
 perp_world!(w128, u128, i128, 20, 128, 100_000_000_000, crate::perp::default_cfg128, crate::perp::new_market128);
+
+// ---------------------------------------------------------------------- bins C07–C10
+use hcommon::{cli, read_requests, Out, Rng};
+use num_bigint::BigInt;
+use std::collections::HashMap;
+
+enum AnyGen { A(w64::HistGen), B(w128::HistGen) }
+
+#[derive(Default)]
+struct Track {
+    /// funding collected / claimed per token, and whether a shortfall was reported (C08)
+    collected: [BigInt; 2],
+    claimed: [BigInt; 2],
+    short: bool,
+    cfg: Vec<String>,
+}
+
+fn bi(s: &str) -> BigInt { s.parse::<BigInt>().unwrap_or_default() }
+
+/// shared main of the `perp` bins: `prop` ∈ {"C07","C08","C09","C10"} selects the oracle.
+pub fn run_bin(prop: &str) {
+    let cli = cli();
+    let mut out = Out::new();
+    if std::env::var("H_DEBUG").is_err() { std::panic::set_hook(Box::new(|_| {})); }
+    let mut db64: HashMap<String, w64::Session> = HashMap::new();
+    let mut db128: HashMap<String, w128::Session> = HashMap::new();
+    let mut track: HashMap<String, Track> = HashMap::new();
+    let mut r = Rng::new(cli.seed);
+    let file_reqs: Vec<String> = if cli.mode == "replay" { read_requests(cli.file.as_deref().unwrap()) } else { vec![] };
+    let mut fi = 0usize;
+    let mut gen: Option<AnyGen> = None;
+    let mut hist_no = 0u64;
+    let mut produced = 0u64;
+    // context for C09 / C10
+    let mut after_inc: Option<(String, String, String)> = None; // (sid, pid, prices)
+    let mut after_dec: Option<(String, String, String)> = None;
+    let mut last_chk_liq: HashMap<(String, String, String), String> = HashMap::new();
+    let mut last_inc: HashMap<(String, String), (String, BigInt)> = HashMap::new(); // (sid,pid) -> (prices, collateral in)
+    loop {
+        let req: String = if cli.mode == "replay" { if fi >= file_reqs.len() { break; } fi += 1; file_reqs[fi - 1].clone() } else {
+            if produced >= cli.n && gen.is_none() { break; }
+            if gen.is_none() {
+                hist_no += 1;
+                let sid = format!("h{}x{}", cli.seed, hist_no);
+                let rt = prop == "C10";
+                gen = Some(if r.chance(2, 3) { AnyGen::A(w64::HistGen::new(&mut r, sid, rt)) } else { AnyGen::B(w128::HistGen::new(&mut r, sid, rt)) });
+            }
+            let nx = match gen.as_mut().unwrap() { AnyGen::A(g) => g.next(&mut r, &db64), AnyGen::B(g) => g.next(&mut r, &db128) };
+            match nx { Some(q) => { produced += 1; q } None => {
+                // drop the finished session to bound memory
+                match gen.take().unwrap() { AnyGen::A(g) => { db64.remove(&g.sid); track.remove(&g.sid); } AnyGen::B(g) => { db128.remove(&g.sid); track.remove(&g.sid); } }
+                continue; } }
+        };
+        let t: Vec<&str> = req.split(' ').collect();
+        if t.len() < 3 || t[0] != "perp" { out.case(&req, "bad-op"); continue; }
+        let (op, sid) = (t[1], t[2].to_string());
+        let is64 = if op == "new" { t.get(3) == Some(&"64") } else { db64.contains_key(&sid) };
+        // state before
+        let (l0, pos_before): ([BigInt; 2], Option<(bool, bool, BigInt)>) = {
+            let pid = t.get(3).and_then(|x| x.parse::<u64>().ok());
+            if is64 { match db64.get(&sid) { Some(s) => (w64::ledger(&s.m), pid.and_then(|k| s.ps.get(&k)).map(|p| (p.is_long, p.is_collateral_token_long, BigInt::from(p.size_in_usd)))), None => (Default::default(), None) } }
+            else { match db128.get(&sid) { Some(s) => (w128::ledger(&s.m), pid.and_then(|k| s.ps.get(&k)).map(|p| (p.is_long, p.is_collateral_token_long, BigInt::from(p.size_in_usd)))), None => (Default::default(), None) } }
+        };
+        let resp = match std::panic::catch_unwind(std::panic::AssertUnwindSafe(|| if is64 { w64::exec(&mut db64, &t[1..]) } else { w128::exec(&mut db128, &t[1..]) })) {
+            Ok(Some(x)) => x, Ok(None) => "bad-op".into(), Err(_) => "panic".into() };
+        if resp == "panic" { out.oracle_fail("panicked", &req); }
+        let head = resp.split(" | ").next().unwrap_or("").to_string();
+        let rt: Vec<&str> = head.split(' ').collect();
+        let ok = rt[0] == "ok";
+        out.stat(&format!("{op}.{}", if ok { "ok".to_string() } else { head.replace(' ', "_") }));
+        if op == "new" && ok { track.insert(sid.clone(), Track { cfg: t[5..].iter().map(|x| x.to_string()).collect(), ..Default::default() }); }
+        let mut nt = ok && matches!(op, "inc" | "dec" | "ubor" | "ufund");
+        if resp != "bad-op" && resp != "panic" {
+            // ---------------- C07: after EVERY operation (successful or failed)
+            if prop == "C07" {
+                let f = if is64 { db64.get(&sid).and_then(w64::check_c07) } else { db128.get(&sid).and_then(w128::check_c07) };
+                if let Some(w) = f { out.oracle_fail(&w, &req); }
+                if op == "dec" && ok {
+                    if rt[8] == "1" {
+                        out.stat("dec.removed");
+                        let pid: u64 = t[3].parse().unwrap();
+                        let z = if is64 { db64[&sid].ps.get(&pid).map(|p| p.size_in_usd == 0 && p.size_in_tokens == 0 && p.collateral_token_amount == 0) } else { db128[&sid].ps.get(&pid).map(|p| p.size_in_usd == 0 && p.size_in_tokens == 0 && p.collateral_token_amount == 0) };
+                        if z != Some(true) { out.oracle_fail("a position reported as removed does not have zero size and zero collateral", &req); }
+                    } else {
+                        let pid: u64 = t[3].parse().unwrap();
+                        let z = if is64 { db64[&sid].ps.get(&pid).map(|p| p.size_in_usd != 0 && p.size_in_tokens != 0) } else { db128[&sid].ps.get(&pid).map(|p| p.size_in_usd != 0 && p.size_in_tokens != 0) };
+                        if z != Some(true) { out.oracle_fail("a position left open has zero size in USD or in tokens", &req); }
+                        if bi(rt[1]) != bi(t[4]) { out.stat("dec.promoted_or_capped"); }
+                    }
+                }
+            }
+            // ---------------- C08: token ledger + funding residual
+            if prop == "C08" {
+                let l1 = if is64 { db64.get(&sid).map(|s| w64::ledger(&s.m)) } else { db128.get(&sid).map(|s| w128::ledger(&s.m)) }.unwrap_or_default();
+                let tr = track.entry(sid.clone()).or_default();
+                match op {
+                    "inc" if ok => {
+                        let (_, cl, _) = pos_before.clone().unwrap();
+                        let k = if cl { 0 } else { 1 };
+                        let fund = bi(rt[11]);
+                        let mut exp = l0.clone(); exp[k] += bi(t[4]) - &fund;
+                        if l1 != exp { out.oracle_fail(&format!("increase: accounted holdings changed by {:?} instead of tokens in {} minus funding fee {}", [&l1[0] - &l0[0], &l1[1] - &l0[1]], t[4], fund), &req); }
+                        tr.collected[k] += &fund; tr.claimed[0] += bi(rt[12]); tr.claimed[1] += bi(rt[13]);
+                        if fund != BigInt::from(0) { out.stat("funding.paid"); }
+                        if bi(rt[12]) + bi(rt[13]) != BigInt::from(0) { out.stat("funding.claimed"); }
+                    }
+                    "dec" if ok => {
+                        let (il, cl, _) = pos_before.clone().unwrap();
+                        let (kc, kp) = (if cl { 0 } else { 1 }, if il { 0 } else { 1 });
+                        let mut outs = [BigInt::from(0), BigInt::from(0)];
+                        outs[kc] += bi(rt[9]) + bi(rt[11]) + bi(rt[13]);
+                        outs[kp] += bi(rt[10]) + bi(rt[12]) + bi(rt[14]);
+                        let fund = bi(rt[22]);
+                        let resid = [&l0[0] - &outs[0] - &l1[0], &l0[1] - &outs[1] - &l1[1]];
+                        let other = 1 - kc;
+                        if resid[other] != BigInt::from(0) || resid[kc] < BigInt::from(0) || resid[kc] > fund {
+                            out.oracle_fail(&format!("decrease: accounted holdings minus outputs left residual {:?} (collateral token index {kc}); funding fee {fund}", resid), &req);
+                        }
+                        if resid[kc] < fund { tr.short = true; out.stat("funding.short"); }
+                        tr.collected[kc] += &resid[kc]; tr.claimed[0] += bi(rt[23]); tr.claimed[1] += bi(rt[24]);
+                        if rt[15] != "_" { out.stat(&format!("insolvent.{}", rt[15])); }
+                        if bi(rt[23]) + bi(rt[24]) != BigInt::from(0) { out.stat("funding.claimed"); }
+                    }
+                    "new" | "setpool" => {}
+                    _ => { if l1 != l0 { out.oracle_fail("an operation without token flows changed the accounted holdings", &req); } }
+                }
+                // funding residual: literal clause and refined invariant
+                if matches!(op, "inc" | "dec" | "ufund") && !tr.short {
+                    let pend = if is64 { db64.get(&sid).and_then(w64::pending_funding) } else { db128.get(&sid).and_then(w128::pending_funding) };
+                    if let Some((pay, clm)) = pend {
+                        for k in 0..2 {
+                            let resid = &tr.collected[k] - &tr.claimed[k];
+                            if &resid + &pay[k] - &clm[k] < BigInt::from(0) { out.oracle_fail(&format!("claimable funding is not backed: collected - claimed + pending payable - pending claimable = {} for token {k}", &resid + &pay[k] - &clm[k]), &req); }
+                            if resid < BigInt::from(0) {
+                                if -&resid <= pay[k] { out.known("F-C08", "funding claimed before it was collected (deficit covered by pending payable funding of untouched payers)", &req); out.stat("funding.residual_negative"); }
+                                else { out.oracle_fail("funding residual negative beyond the pending payable funding", &req); }
+                            }
+                        }
+                    }
+                }
+            }
+            // ---------------- C09: health after increase/decrease, liquidation guard
+            if prop == "C09" {
+                let prices = |from: usize| t[from..].join(" ");
+                match op {
+                    "inc" => { after_dec = None; after_inc = if ok { Some((sid.clone(), t[3].to_string(), prices(6))) } else { None }; }
+                    "dec" => {
+                        after_inc = None; after_dec = None;
+                        let key = (sid.clone(), t[3].to_string(), prices(9));
+                        if t[7] == "1" {
+                            // liquidation order
+                            if ok {
+                                out.stat("liquidation.ok");
+                                match last_chk_liq.get(&key) { Some(x) if x != "none" => {}, Some(_) => out.oracle_fail("a liquidation succeeded for a position that is not liquidatable under the liquidation thresholds", &req), None => {} }
+                                if rt[8] != "1" || Some(bi(rt[1])) != pos_before.clone().map(|x| x.2) { out.oracle_fail("a liquidation did not close the whole position", &req); }
+                            } else if head == "err notliquidatable" {
+                                out.stat("liquidation.rejected");
+                                if let Some(x) = last_chk_liq.get(&key) { if x != "none" { out.oracle_fail("liquidation of a liquidatable position was rejected as not liquidatable", &req); } }
+                            }
+                        } else if ok && rt[8] == "0" { after_dec = Some(key); }
+                    }
+                    "chk" if ok => {
+                        let key = (sid.clone(), t[3].to_string(), prices(6));
+                        let (mc, fl) = (t[4], t[5]);
+                        if mc == "1" && fl == "1" { last_chk_liq.insert(key.clone(), rt[1].to_string()); if last_chk_liq.len() > 4096 { last_chk_liq.clear(); } }
+                        let tr = track.get(&sid);
+                        let liq_gt = tr.map(|x| bi(&x.cfg[33]) > bi(&x.cfg[32])).unwrap_or(false);
+                        if after_inc.as_ref() == Some(&key) {
+                            if mc == "1" && fl == "0" && rt[1] != "none" { out.oracle_fail("a successful increase left the position liquidatable at the execution prices", &req); }
+                            if mc == "1" && fl == "1" && rt[1] != "none" {
+                                if liq_gt && rt[1] == "leverage" { out.known("F-C09", "position liquidatable right after a successful order (liquidation factor above the open-position factor)", &req); }
+                                else { out.oracle_fail("a successful increase left the position liquidatable under the liquidation thresholds", &req); }
+                            }
+                        }
+                        if after_dec.as_ref() == Some(&key) {
+                            if mc == "0" && fl == "0" && rt[1] != "none" { out.oracle_fail("a decrease that left the position open left it liquidatable at the execution prices", &req); }
+                            if mc == "1" && fl == "1" && rt[1] != "none" {
+                                if rt[1] == "mincollateral" || (liq_gt && rt[1] == "leverage") { out.known("F-C09", "position liquidatable right after a successful order (min collateral value not validated on decrease / liquidation factor above the open-position factor)", &req); out.stat("dec.left_liquidatable"); }
+                                else { out.oracle_fail("a decrease that left the position open left it liquidatable under the liquidation thresholds", &req); }
+                            }
+                        }
+                        nt = rt[1] != "none";
+                    }
+                    _ => {}
+                }
+            }
+            // ---------------- C10: open + immediate full close at unchanged prices
+            if prop == "C10" {
+                match op {
+                    "inc" if ok => { last_inc.insert((sid.clone(), t[3].to_string()), (t[6..].join(" "), bi(t[4]))); if last_inc.len() > 4096 { last_inc.clear(); } }
+                    "dec" if ok => {
+                        if let Some((pr, cin)) = last_inc.remove(&(sid.clone(), t[3].to_string())) {
+                            if pr == t[9..].join(" ") && rt[8] == "1" {
+                                out.stat("roundtrip.pairs");
+                                let (il, cl, _) = pos_before.clone().unwrap();
+                                let p: Vec<BigInt> = t[9..].iter().map(|x| bi(x)).collect();
+                                // prices: index(min,max) long(min,max) short(min,max)
+                                let (pc, pp) = (if cl { &p[2] } else { &p[4] }, if il { &p[2] } else { &p[4] });
+                                let received = (bi(rt[9]) + bi(rt[13])) * pc + (bi(rt[10]) + bi(rt[14])) * pp;
+                                let deposited = &cin * pc;
+                                let slack = BigInt::from(2) * if pc > pp { pc.clone() } else { pp.clone() };
+                                if received > &deposited + &slack { out.oracle_fail(&format!("opening and immediately closing returned value {received} for a deposit worth {deposited}"), &req); }
+                                if received > deposited { out.stat("roundtrip.within_slack"); } else if received < deposited { out.stat("roundtrip.loss"); }
+                                if bi(rt[3]) > BigInt::from(0) { out.stat("roundtrip.close_positive_impact"); }
+                            }
+                        }
+                    }
+                    _ => {}
+                }
+            }
+        }
+        out.case_nt(&req, &resp, nt);
+    }
+    out.finish();
+}
